@@ -17,6 +17,7 @@ import (
 	"github.com/pion/rtp"
 
 	"github.com/bluenviron/gortsplib/v5/internal/asyncprocessor"
+	"github.com/bluenviron/gortsplib/v5/internal/verifyield"
 	"github.com/bluenviron/gortsplib/v5/pkg/base"
 	"github.com/bluenviron/gortsplib/v5/pkg/description"
 	"github.com/bluenviron/gortsplib/v5/pkg/format"
@@ -537,6 +538,7 @@ func (ss *ServerSession) run() {
 
 	ss.ctxCancel()
 
+	verifyield.Point("session.run.afterCancel")
 	// close all associated connections, both UDP and TCP
 	// except for the one that called TEARDOWN
 	// (that is detached from the session just after the request)
@@ -549,11 +551,13 @@ func (ss *ServerSession) run() {
 		sc.removeSession(ss)
 	}
 
+	verifyield.Point("session.run.beforeReaderRemove")
 	if ss.setuppedStream != nil {
 		ss.setuppedStream.readerSetInactive(ss)
 		ss.setuppedStream.readerRemove(ss)
 	}
 
+	verifyield.Point("session.run.beforeMediasClose")
 	ss.propsMutex.Lock()
 
 	for _, sm := range ss.setuppedMedias {
@@ -562,10 +566,12 @@ func (ss *ServerSession) run() {
 
 	ss.propsMutex.Unlock()
 
+	verifyield.Point("session.run.beforeDestroyWriter")
 	if ss.writer != nil {
 		ss.destroyWriter()
 	}
 
+	verifyield.Point("session.run.beforeCloseSession")
 	ss.s.closeSession(ss)
 
 	if h, ok := ss.s.Handler.(ServerHandlerOnSessionClose); ok {
